@@ -282,6 +282,20 @@ class Opaque:
         return f"<opaque {self.name}>"
 
 
+class FakeFile:
+    """what the analysed code writes to files is kept in World.files (nothing touches the file system)"""
+
+    def __init__(self, world, name):
+        self.world, self.name = world, name
+        world.files[name] = ""
+
+    def write(self, s):
+        self.world.files[self.name] += s
+
+    def close(self):
+        pass
+
+
 class SuperV:
     def __init__(self, owner, self_obj):
         self.owner, self.self_obj = owner, self_obj
@@ -289,13 +303,13 @@ class SuperV:
 
 BUILTIN_TYPES = {"int": int, "str": str, "bool": bool, "list": list, "set": set, "tuple": tuple, "dict": dict,
                  "frozenset": frozenset, "bytes": bytes}
-BUILTIN_FUNCS = ("isinstance", "len", "range", "max", "min", "sorted", "print", "any", "all", "map", "getattr", "enumerate",
+BUILTIN_FUNCS = ("open", "dir", "isinstance", "len", "range", "max", "min", "sorted", "print", "any", "all", "map", "getattr", "enumerate",
                  "zip", "sum", "abs", "repr", "hasattr", "reversed", "issubclass", "filter", "hash", "id", "type")
 OPAQUE_MODULES = ("logging", "sys", "os", "inspect")
 # pure standard-library helpers the repository calls on concrete strings (literal decoding, regex matching):
 # they are executed as the interpreter's own library, never as repository code
-PURE_STDLIB = ("base64", "binascii", "re", "string")
-TYPING_NAMES = ("typing", "abc", "dataclasses", "functools", "pathlib", "enum")
+PURE_STDLIB = ("base64", "binascii", "re", "string", "html", "json", "pathlib", "posixpath")
+TYPING_NAMES = ("typing", "abc", "dataclasses", "functools", "enum")
 
 
 class Module:
@@ -386,6 +400,8 @@ class World:
         self.trace = None          # list of (module, lineno, taken) when branch tracing is on
         self.steps = 0
         self.max_steps = 5_000_000
+        self.files = {}            # file name -> text written by the analysed code (abstract file system)
+        self.stdout = None         # list of printed lines when capture is on
 
     def module(self, dotted):
         if dotted not in self.cache:
@@ -803,7 +819,9 @@ class Interp:
 
     def ev_BinOp(self, n, env):
         a, b = self.ev(n.left, env), self.ev(n.right, env)
-        if isinstance(n.op, ast.Div) and (isinstance(a, (Opaque,)) or str(type(a).__name__) == "PosixPath"):
+        if isinstance(n.op, ast.Div) and type(a).__module__ == "pathlib":
+            return a / b
+        if isinstance(n.op, ast.Div) and isinstance(a, Opaque):
             return Opaque("path")
         return self.binop(n.op, a, b)
 
@@ -952,6 +970,10 @@ class Interp:
         if isinstance(o, Opaque):
             if o.name == "sys" and a == "exit":
                 return ("builtin", "sys.exit")
+            if o.name == "os" and a == "getenv":
+                return ("builtin", "os.getenv")
+            if o.name == "inspect" and a == "isclass":
+                return ("builtin", "inspect.isclass")
             return Opaque(o.name + "." + a)
         if isinstance(o, SuperV):
             c, st = o.self_obj.cls.find(a, after=o.owner)
@@ -1006,8 +1028,11 @@ class Interp:
             return ("builtin", "noop")
         if isinstance(o, FuncV) and a == "__name__":
             return o.node.name
-        if isinstance(o, (str, list, set, dict, tuple, frozenset, collections.defaultdict, int, bytes)):
+        if isinstance(o, (str, list, set, dict, tuple, frozenset, collections.defaultdict, int, bytes, FakeFile)):
             return ("pymethod", o, a)
+        if type(o).__module__ in ("pathlib",):
+            v = getattr(o, a)
+            return ("pymethod", o, a) if callable(v) else v
         if o is None:
             raise PyRaise("AttributeError", (self.mod.name if self.mod else "?", getattr(node, "lineno", 0), f"None.{a}"))
         raise Unsupported(f"getattr {o!r}.{a}")
@@ -1129,9 +1154,23 @@ class Interp:
                 raise PyRaise("ValueError", None)
             return (max if name == "max" else min)(xs)
         if name == "print":
+            w = self.mod.world
+            if w.stdout is not None and "file" not in kw:
+                w.stdout.append(" ".join(self.to_str(a) if isinstance(a, (Obj, EnumMember, Term, list)) else str(a) for a in args))
             return None
         if name == "sys.exit":
             raise PyRaise("SystemExit", None)
+        if name == "os.getenv":
+            return args[1] if len(args) > 1 else kw.get("default")
+        if name == "inspect.isclass":
+            return isinstance(args[0], ClassV)
+        if name == "open":
+            return FakeFile(self.mod.world, str(args[0]))
+        if name == "dir":
+            o = args[0]
+            if isinstance(o, tuple) and o[0] == "module":
+                return sorted(set(o[1].defs) | set(o[1].imports))
+            raise Unsupported(f"dir of {o!r}")
         if name == "map":
             return [self.call(args[0], [x], {}) for x in self.iterate(args[1])]
         if name == "filter":
